@@ -129,6 +129,18 @@ claim("C06", "exploration",
       TB + " numpy.random.binomial's distribution is trusted; bounds are validated exactly rather than statistically.",
       "DESIGN.md 4 (C06)")
 
+claim("C19", "exploration",
+      "runtime monitoring: recording probe classifier / margin function (event log of cross-validation folds at the library "
+      "boundary) + protocol shadow model; bounded-exhaustive call sequences and state-graph exploration on deep copies of "
+      "the real detector",
+      "Every call sequence of length 5 (7 thorough) over {update in/out of margin, label correct/incorrect/wrong columns, "
+      "two-row update} from four start states x four configurations, continued as a state graph to 11 (15) accepted calls with "
+      "every refused call re-checked at every node, plus long random interleavings: after each call the full published state "
+      "(drift_state, waiting flag, labels held, margin density, counters, reference statistics) is compared with the model; "
+      "refused calls must raise and change nothing; reference statistics are recomputed from the logged folds, which must "
+      "partition the reference rows.  Exhaustive within the bounds, sampled beyond.",
+      TB + " A deterministic threshold classifier and margin function stand for the user's model.", "DESIGN.md 4 (C19)")
+
 NOT_YET = "check not built yet in this revision of /verif (planned: see DESIGN.md section 4); nothing is claimed for it"
 
 
